@@ -116,6 +116,15 @@ def main(tier, seed, replay=None):
         if not bad and not np.allclose(e_pc, e_clt, rtol=2e-4, atol=1e-9):
             i = int(np.argmax(np.abs(e_pc - e_clt)))
             bad = dict(what="converted circuit and tree disagree", row=sorted(rows[i].items()), pc=float(e_pc[i]), clt=float(e_clt[i]))
+        # every row again as a batch of its own: the value of a row may not depend on which other rows (evidence patterns) share its batch
+        if not bad:
+            with np.errstate(all="ignore"):
+                solo = np.array([float(np.exp(np.clip(clt.log_likelihood(X[i:i + 1][:, scope]).reshape(-1).astype(np.float64), -700, 50))[0])
+                                 for i in range(len(rows))])
+            if not np.allclose(solo, e_clt, rtol=2e-4, atol=1e-9):
+                i = int(np.argmax(np.abs(solo - e_clt)))
+                bad = dict(what="the tree's value of a row differs between a single-row query and the mixed batch", row=sorted(rows[i].items()),
+                           alone=float(solo[i]), in_batch=float(e_clt[i]), converted_circuit=float(e_pc[i]))
         # determinism on complete rows (implementation): at most one non-zero child per sum
         comp = [i for i, c in enumerate(rows) if all(v is not None for v in c.values())]
         if comp and not bad:
